@@ -144,7 +144,12 @@ def t3(order):
 
 
 def t5(scope):
-    """Flip wide <-> narrow offsets for every row where representable (scope 'all' or 'tile<k>')."""
+    """Flip wide <-> narrow offsets for every row where representable (scope 'all', 'tile<k>' or
+    'all-absent' = as 'all' but byte-offset rows carry NO has_wide_offsets field at all, which is how
+    Numbers itself writes them; present-false and absent mean the same)."""
+    absent = scope == "all-absent"
+    if absent:
+        scope = "all"
     stats = {"rows": 0}
     counter = [0]
 
@@ -164,6 +169,8 @@ def t5(scope):
                 if len(r.cell_storage_buffer) < 32000 and all(o * 4 < 32768 for o in offs):
                     r.cell_offsets = struct.pack(f"<{len(offs)}h", *[o * 4 if o >= 0 else o for o in offs])
                     r.has_wide_offsets = False
+                    if absent:
+                        r.ClearField("has_wide_offsets")
                     ch = True
                     stats["rows"] += 1
             elif all(o % 4 == 0 for o in offs if o >= 0):
@@ -358,7 +365,7 @@ def variants(tier, members, ncells):
     nlists = sum(1 for _ in _datalists(members))
     vs = [["ID"]]
     if tier == "quick":
-        vs += [["T1", "reverse"], ["T1", "rotate"], ["T2", "cut1"], ["T3", "reversed", "deflated"], ["T3", "sorted", "stored"], ["T4"], ["T5", "all"], ["T6", "all"]]
+        vs += [["T1", "reverse"], ["T1", "rotate"], ["T2", "cut1"], ["T3", "reversed", "deflated"], ["T3", "sorted", "stored"], ["T4"], ["T5", "all"], ["T5", "all-absent"], ["T6", "all"]]
         if ncells <= 2000:
             vs += [["T1", "interleave"], ["T1", "perm3"], ["T2", "1k"], ["T2", "half"]]
         return vs, []
@@ -368,7 +375,7 @@ def variants(tier, members, ncells):
         vs += [["T1one", h, k] for k in range(nlists) for h in ("reverse", "rotate")]
     vs += [["T2", m] for m in ("one", "cut1", "half", "1k")]
     vs += [["T3", o, c] for o in ("reversed", "sorted", "rotated") for c in ("stored", "deflated")]
-    vs += [["T4"], ["T5", "all"]]
+    vs += [["T4"], ["T5", "all"], ["T5", "all-absent"]]
     ntiles = sum(1 for n, _ in _tiles(members))
     if ntiles <= 6:
         vs += [["T5", f"tile{k}"] for k in range(ntiles)]
